@@ -296,7 +296,9 @@ def shapes_for(tier, objective='streett'):
     # nested fixpoints (probed: single tasks beyond 6000 s); integers enter through the template families
     return [('B11a', 'cudd', 4), ('S11h2', 'cudd', 0), ('S11g2', 'cudd', 0), ('B11b', 'cudd', 4),
             ('S11', 'cudd', 0), ('B02', 'cudd', 0), ('T11b', 'cudd', 0), ('T11', 'cudd', 16),
-            ('S11', 'autoref', 0), ('B02', 'autoref', 0), ('T11b', 'autoref', 0), ('B11a', 'autoref', 4)]
+            # B11a on dd.autoref: its variable order gives larger exported terms; the Mealy obligations reach
+            # z3's timeout (`unknown` after ~1100 s each), so that back end runs the three smaller families
+            ('S11', 'autoref', 0), ('B02', 'autoref', 0), ('T11b', 'autoref', 0)]
 
 
 def run(tier, seed, t0, only=None, objective='streett', pid=PID):
